@@ -139,6 +139,11 @@ pub fn replay(input: &str, fixfile: Option<&str>, outdir: &str, nm: usize, seed:
                         // "same": the specification says the step has no effect -- expected post-state = the pre-state
                         let exp = if same { pre.clone() } else { let mut e = l["post"].clone(); normalise(&mut e); e };
                         let res_t = res["t"].as_str().unwrap_or("");
+                        if res_t == "skipped" {
+                            counts.lock().unwrap().2 += 1;
+                            world = None;
+                            continue;
+                        }
                         let same_res = res["t"] == l["res"]["t"] && (res_t == "panic" || res_t == "hang" || res["v"] == l["res"]["v"]);
                         let same_post = res_t == "hang" || post == exp;
                         *local_ops.entry(l["a"]["op"].as_str().unwrap_or("?").to_string()).or_default() += 1;
